@@ -78,6 +78,10 @@ func hsVariants() []hsVariant {
 	for w := 1; w <= 3; w++ {
 		vs = append(vs, hsVariant{fmt.Sprintf("ows=%d", w), 101, "websocket", "right", id, 0, w})
 	}
+	// the Connection header is a token list (RFC 7230 6.1) and not one of the three things the outcome depends on
+	for _, c := range []string{"upgrade", "keep-alive, Upgrade", "Upgrade, keep-alive", "absent"} {
+		vs = append(vs, hsVariant{"connection=" + c, 101, "websocket", "right", id, 0, 0})
+	}
 	return vs
 }
 
@@ -92,6 +96,12 @@ func (v hsVariant) render(key string) []byte {
 	var hdrs [3][2]string
 	hdrs[0] = [2]string{"Upgrade", v.upgrade}
 	hdrs[1] = [2]string{"Connection", "Upgrade"}
+	if strings.HasPrefix(v.name, "connection=") {
+		hdrs[1][1] = v.name[len("connection="):]
+		if hdrs[1][1] == "absent" {
+			hdrs[1][1] = ""
+		}
+	}
 	switch v.accept {
 	case "right":
 		hdrs[2] = [2]string{"Sec-WebSocket-Accept", acceptFor(key)}
@@ -127,7 +137,7 @@ func (v hsVariant) render(key string) []byte {
 	fmt.Fprintf(&sb, "HTTP/1.1 %d %s\r\n", v.status, text)
 	for _, i := range v.order {
 		h := hdrs[i]
-		if h[1] == "" && (i == 0 || i == 2) {
+		if h[1] == "" {
 			continue
 		}
 		name := h[0]
@@ -824,7 +834,7 @@ func C18(tier string) *engine.Report {
 		d.Budget = 25 * time.Minute
 	}
 	tot.Add(d.Run(), rep)
-	tot.Fill(rep, "blocking/async x 50 response variants (full product of status x Upgrade x accept; near misses of the accept value: case-swapped, lower-cased, truncated, suffixed; header orders, letter cases, optional whitespace around the conforming response) x 0/1/2 piggy-backed frames; deviations: every single cut of response+frames, a second cut on a grid of 8, server close after the first segment, a preceding session on the same stream (failed handshake; dropped with half a frame unread / a pong or a Close(1002) queued but never flushed / a failed write), a free choice for the conforming response; after every upgrade the server must receive exactly the first message the application writes; "+
+	tot.Fill(rep, "blocking/async x 54 response variants (full product of status x Upgrade x accept; Connection as a token list in either order, lower-case, or absent; near misses of the accept value: case-swapped, lower-cased, truncated, suffixed; header orders, letter cases, optional whitespace around the conforming response) x 0/1/2 piggy-backed frames; deviations: every single cut of response+frames, a second cut on a grid of 8, server close after the first segment, a preceding session on the same stream (failed handshake; dropped with half a frame unread / a pong or a Close(1002) queued but never flushed / a failed write), a free choice for the conforming response; after every upgrade the server must receive exactly the first message the application writes; "+
 		"the raw server is lock-stepped with the client through SIOCOUTQ/FIONREAD; every case is a real TCP handshake", d.MaxDeviations)
 	rep.Assumptions = append(rep.Assumptions, "SIOCOUTQ==0 on the server socket and FIONREAD==0 on the client socket mean the client has consumed the segment")
 	return rep
